@@ -785,3 +785,51 @@ def implied_when(prog, e, val):
     if not alts:
         return set()
     return set.intersection(*alts)
+
+
+def crop_passthrough(rep, prog, rule):
+    """the crop box a CroppedSrcImageView carries is the one it was given"""
+    rep.rule(rule, "every constructor of CroppedSrcImageView that receives a CropBox stores exactly "
+             "that value (the aggregate's crop_box field is the parameter itself): the resamplers "
+             "compute pixel positions from the stored box, so a box that was rounded, snapped to "
+             "the pixel grid or clamped on the way maps destination pixels to other source "
+             "positions than the caller's box does (for Nearest: floor(left + ..) of a left that "
+             "was moved across an integer)")
+    adt = [k for k in prog.adts if k.endswith("crop_box::CroppedSrcImageView")]
+    if len(adt) != 1:
+        rep.unk(rule, "anchor", "", "struct CroppedSrcImageView not found")
+        return
+    fields = [x[0] for x in prog.adts[adt[0]]["variants"][0]["fields"]]
+    if "crop_box" not in fields:
+        rep.unk(rule, "anchor|field", "", "CroppedSrcImageView has no field crop_box")
+        return
+    fi = fields.index("crop_box")
+    n = 0
+    for f in sorted(prog.fns.values(), key=lambda x: x.id):
+        if f.kind == "closure":
+            continue
+        params = [i for i in range(1, f.arg_count + 1) if (f.local_ty(i) or "").endswith("CropBox")]
+        sym = None
+        for b, blk in enumerate(f.blocks):
+            if blk["c"]:
+                continue
+            for j, st in enumerate(blk["s"]):
+                if not (st[0] == "a" and st[2][0] == "agg" and st[2][1] == "adt" and st[2][2] == adt[0]):
+                    continue
+                if not params:
+                    continue
+                sym = sym or Sym(f)
+                rep.touch(f)
+                n += 1
+                e = sym.operand(st[2][4][fi], (b, j))
+                key = "%s" % f.name
+                if e[0] == "param" and e[1] in params:
+                    rep.ok(rule, key, st[3], "stores its parameter `%s`" % e[2])
+                elif any(("param", i, f.local_name(i)) in atoms(e) for i in params) or \
+                        any(f.local_name(i) and f.local_name(i) in fmt(e) for i in params):
+                    rep.bad(rule, key + "|modified", st[3],
+                            "%s stores %s instead of its parameter: the crop box is altered between the "
+                            "caller and the resamplers" % (f.name, fmt(e)[:160]))
+                else:
+                    rep.unk(rule, key, st[3], "stored crop box %s" % fmt(e)[:120])
+    rep.floor(rule, "constructors that take a CropBox", n, 2)
